@@ -163,8 +163,13 @@ def run(ctx):
             Zm = base_Z(n, p, seed, inp, "generate_changing_data")
             if Zm is None:
                 continue
-            st, out = call(G.generate_changing_data, n, list(cp), list(means), list(vars_), seed)
-            st2, out2 = call(G.generate_changing_data, n, list(cp), list(means), list(vars_), seed)
+            cp_arg, means_arg, vars_arg = list(cp), list(means), list(vars_)
+            st, out = call(G.generate_changing_data, n, cp_arg, means_arg, vars_arg, seed)
+            st2, out2 = call(G.generate_changing_data, n, cp_arg, means_arg, vars_arg, seed)
+            if cp_arg != list(cp) or len(means_arg) != len(means) or len(vars_arg) != len(vars_) or (st == "ok") != (st2 == "ok"):
+                ctx.violation(f"generate_changing_data modified its arguments (changepoints {cp} -> {cp_arg}) or a second call with the same argument "
+                              f"objects behaved differently ({st} then {st2})", inp, {"what": "argument-mutated", "fn": "generate_changing_data"})
+                continue
             impl = finish("generate_changing_data", None, st, out, out2 if st2 == "ok" else None, n, p, inp, bad)
             if impl == "skip":
                 continue
@@ -227,8 +232,13 @@ def run(ctx):
             Zm = base_Z(n, p, seed, inp, "generate_anomalous_data")
             if Zm is None:
                 continue
-            st, out = call(G.generate_anomalous_data, n, list(call_an), list(means), list(vars_), seed)
-            st2, out2 = call(G.generate_anomalous_data, n, list(call_an), list(means), list(vars_), seed)
+            an_arg, means_arg, vars_arg = list(call_an), list(means), list(vars_)
+            st, out = call(G.generate_anomalous_data, n, an_arg, means_arg, vars_arg, seed)
+            st2, out2 = call(G.generate_anomalous_data, n, an_arg, means_arg, vars_arg, seed)
+            if an_arg != list(call_an) or len(means_arg) != len(means) or len(vars_arg) != len(vars_) or (st == "ok") != (st2 == "ok"):
+                ctx.violation(f"generate_anomalous_data modified its arguments or a second call with the same argument objects behaved differently "
+                              f"({st} then {st2})", inp, {"what": "argument-mutated", "fn": "generate_anomalous_data"})
+                continue
             impl = finish("generate_anomalous_data", None, st, out, out2 if st2 == "ok" else None, n, p, inp, bad)
             if impl == "skip":
                 continue
